@@ -136,6 +136,7 @@ def check(case):
                         got_f = (plain if suffix else m).rhs(pt)  # remove_unused variant: gate on the plain module, the variant itself is what is tested
                     except (mg.RefError, be.Stage):
                         continue
+                    scale0 = float(ref.last_maxabs)  # largest operand of an addition / Mod / trigonometric function at this input
                     if frag or not all(cm.vclose(got_f[s], vals[f"d{s}_dt"], ref.last_maxabs) for s in ref.states):
                         cm.note(res, "skipped:point-fragile-or-rhs-differs(C01/C02)")
                         continue
@@ -163,10 +164,10 @@ def check(case):
                                 if abs(g) > delta:
                                     e1 = math.expm1(g * dt)
                                     want, branch = x + (f / g) * e1, "rl"
-                                    tol = 1e-9 * (abs(x) + abs(f / g * e1)) + 8e-16 * abs(f / g) + cm.ref_atol(abs(x))
+                                    tol = 1e-9 * (abs(x) + abs(f / g * e1)) + 8e-16 * abs(f / g) + cm.ref_atol(abs(x)) + cm.ref_atol(scale0) * max(1.0, abs(dt))
                                 else:
                                     want, branch = x + dt * f, "euler"
-                                    tol = 1e-9 * (abs(x) + abs(dt * f)) + cm.ref_atol(abs(x))
+                                    tol = 1e-9 * (abs(x) + abs(dt * f)) + cm.ref_atol(abs(x)) + cm.ref_atol(scale0) * max(1.0, abs(dt))  # f itself carries that absolute error (sin of 4e8)
                             except OverflowError:
                                 continue
                             if not math.isfinite(want):
